@@ -188,7 +188,7 @@ def execute(hist, collect=None):
             stats["filters"] += 1
             U = np.array(op["U"], dtype=float).reshape(-1, D)
             lb, ub = np.array([op["lb"]], dtype=float), np.array([op["ub"]], dtype=float)
-            n_logged = fl.X_max_idx + 1
+            n_logged = fl.Xn + 1
             Xl = fl.X[:n_logged].copy()
             try:
                 out = contraints_check(U.copy(), lb, ub, op["tol"], fl, op["proj"], None)
